@@ -299,6 +299,22 @@ PROPS["C05"] = dict(
                  "the WaitCond model has one waiter; other waiters on the same cond appear as spurious notifications; mutators are single critical sections (T1 facts + C11)"],
 )
 
+PROPS["C04"] = dict(
+    lean_targets=["BB.Core.Fair", "BB.Props.C04"],
+    theorems=["BB.Props.C04.inv_step_table", "BB.Props.C04.inv_reach", "BB.Props.C04.pending_evaluation", "BB.Props.C04.reclaim_leadsTo",
+              "BB.Props.C04.at_most_one_expiry", "BB.Props.C04.rebroadcast_lost_without_buffer_mutex", "BB.Props.C04.fixed_quiescent_bound"],
+    corr=[dict(family="cleangate", quick=2, thorough=60, mismatch_is_violation=True, no_shrink=True, timeout=2400,
+               nontrivial=has("rebroadcast_vs_park_window", "window_cooldown", "cooldown_zero"),
+               rule="cleangate (forced schedules, T4): the LAST state change (a commit, or the close of the slowest consumer) is placed {with an idle cleaner, inside a "
+                    "running cooldown, inside a cooldown with the cleanup goroutine held between recording the change and parking until the timer has fired}; then nothing "
+                    "else happens and Size must reach the backlog (0) within 3 cooldowns + 1.5 s; prediction from the Lean cleanup model under a fair scheduler"),
+          dict(family="bufconc", quick=40, thorough=2000, mismatch_is_violation=True, no_shrink=True, nontrivial=has("quiet_reclaim", "shift"),
+               rule="bufconc (see C01) with the quiet-phase check: after the workload stops, nothing reclaimable may remain (real cleaner, cooldown 0 / 200us)")],
+    assumptions=["real time is abstracted: an armed timer fires as an environment action; 'bounded delay' = at most one timer expiry plus finitely many fair scheduler steps",
+                 "sentence 1 of the property is formalised for the cleaner evaluation the code performs (DefaultCleaner reclaims what every open consumer committed past); "
+                 "the liveness theorem is for runs that become quiet (no mutator acts any more), as the property says 'even if no further operation ever happens'"],
+)
+
 with_conform(PROPS["C01"], "Buffer")
 with_conform(PROPS["C02"], "Buffer")
 with_conform(PROPS["C03"], "Buffer")
@@ -318,3 +334,4 @@ PROPS["C01"]["corr"].append(_bufconc(["shift_with_delta", "cons_after_shift", "b
 PROPS["C02"]["corr"].append(_bufconc(["rollback_d2", "rollback", "commit"]))
 PROPS["C03"]["corr"].append(_bufconc(["evict_unread", "past_error", "shift", "consumer_closed"]))
 PROPS["C05"]["corr"].append(_bufconc(["get_pending"]))
+with_conform(PROPS["C04"], "Cleanup", "Buffer", "WaitCond")
